@@ -114,7 +114,7 @@ class Gen:
         elif k < 0.96:
             self.emit([r.choice(["iter", "riter", "json", "iter", "riter", "piter", "rpiter"]), L])
         else:
-            self.emit(["unjson", L, [r.randrange(-20, 21) for _ in range(r.randrange(0, 4))]])
+            self.emit(["unjson", L, [("null" if r.random() < 0.2 else r.randrange(-20, 21)) for _ in range(r.randrange(0, 4))]])
 
     def stack_op(self):
         r, ref = self.rng, self.ref
@@ -147,7 +147,7 @@ class Gen:
         elif k < 0.94:
             self.emit([r.choice(["siter", "sjson", "siter", "spiter"]), S])
         else:
-            self.emit(["sunjson", S, [r.randrange(-20, 21) for _ in range(r.randrange(0, 4))]])
+            self.emit(["sunjson", S, [("null" if r.random() < 0.2 else r.randrange(-20, 21)) for _ in range(r.randrange(0, 4))]])
 
 
 def gen(rng, tier, open_keys):
@@ -168,6 +168,7 @@ def corpus():
         # D16: removing a non-head item must unlink it
         "(seq (newstack) (push S0 1) (push S0 2) (push S0 3) (head S0) (snext i0) (srm i1) (siter S0) (sjson S0))",
         "(seq (newlist) (unjson L0 (1 2 3)) (json L0) (piter L0) (popf L0) (rpiter L0))",
+        "(seq (newlist) (unjson L0 (1 null 3)) (json L0) (iter L0) (riter L0))",
         # Pop on a zero-value stack must not disable later pushes
         "(seq (nspop) (push S0 1) (push S0 2) (siter S0))",
     ]
